@@ -465,6 +465,25 @@ func runC06(cfg *Cfg, rec *ev.Rec) {
 			b.Sigs = append(b.Sigs, t.Sig)
 			b.Kinds = append(b.Kinds, t.Family)
 		}
+		// sometimes a run of byte-identical entries straddles a chunk boundary
+		// (positions 60..67 or 124..131 hold copies of one entry, good or bad)
+		if n >= 68 && rng.Intn(4) == 0 {
+			start := 60
+			if n >= 132 && rng.Intn(2) == 0 {
+				start = 124
+			}
+			var t gen.Triple
+			if rng.Intn(2) == 0 {
+				t = pool.badEntry([]string{"so-key", "so-R", "zip-only-smallkey", "zip-only-R", "flip-S", "S+L"}[rng.Intn(6)])
+				badAt[start] = true
+			} else {
+				t = pool.goodEntry()
+			}
+			for i := start; i < start+8 && i < n; i++ {
+				b.Keys[i], b.Msgs[i], b.Sigs[i], b.Kinds[i] = t.Pub, t.Msg, t.Sig, t.Family+"(run)"
+			}
+			rec.Class("batch/identical-run-across-chunk-boundary", 1)
+		}
 		if len(badAt) == 0 {
 			// all-valid: every entropy stream is admissible
 			b.EKind = validEntropyKinds[rng.Intn(len(validEntropyKinds))]
